@@ -30,6 +30,7 @@ Step ==
   CASE Ev.ev = "reset" ->
          /\ route' = {} /\ ref' = [c \in Clusters |-> 0] /\ active' = {} /\ inConfig' = {}
          /\ rpc' = [i \in RPCs |-> 0] /\ dirty' = FALSE /\ ncommit' = [i \in RPCs |-> 0] /\ off' = FALSE
+    [] Ev.ev = "panic" -> Mark(TRUE, "I_NoPanic", l) /\ off' = TRUE /\ UNCHANGED cvars
     [] OTHER ->
          IF off THEN UNCHANGED <<cvars, off>>
          ELSE IF Ev.ev = "select" /\ Ev.err
